@@ -91,7 +91,11 @@ Items == <<
   \* 43: g7|endswith|all: ['e1', 'e2']
   [field |-> <<103, 55>>, chain |-> <<<<101, 110, 100, 115, 119, 105, 116, 104>>, <<97, 108, 108>>>>, vals |-> <<SS(<<101, 49>>), SS(<<101, 50>>)>>, single |-> FALSE],
   \* 44: g8|wide|base64: 'A'
-  [field |-> <<103, 56>>, chain |-> <<<<119, 105, 100, 101>>, <<98, 97, 115, 101, 54, 52>>>>, vals |-> <<SS(<<65>>)>>, single |-> TRUE]
+  [field |-> <<103, 56>>, chain |-> <<<<119, 105, 100, 101>>, <<98, 97, 115, 101, 54, 52>>>>, vals |-> <<SS(<<65>>)>>, single |-> TRUE],
+  \* 45: g9|: 'a\\\\*b'
+  [field |-> <<103, 57>>, chain |-> <<>>, vals |-> <<SS(<<97, 92, 92, 42, 98>>)>>, single |-> TRUE],
+  \* 46: h1|contains: 'c:\\x'
+  [field |-> <<104, 49>>, chain |-> <<<<99, 111, 110, 116, 97, 105, 110, 115>>>>, vals |-> <<SS(<<99, 58, 92, 120>>)>>, single |-> TRUE]
 >>
 KwLists == <<
   <<SS(<<102, 111, 111>>), SS(<<98, 97, 42, 114>>)>>,
